@@ -179,6 +179,10 @@ class Model:
         p = self.get(ns, parent)
         node = p.children.pop(name)
         self.removed_names.append((ns, path, node.kind))
+        if ns == 'iso' and node.rr:
+            if not hasattr(self, 'removed_rr'):
+                self.removed_rr = {}
+            self.removed_rr[path] = node.rr
         return node
 
     def _gc(self):
@@ -616,12 +620,12 @@ def valid(m, op):
         if n is None or n.kind != 'file' or not isinstance(n.blob, int) or n.noinode:
             return False
         b = m.blobs[n.blob]
-        if b.length == 0 or n.blob in m.eltorito_blobs():
+        if b.length == 0:
             return False
         if op.get('bit') and b.bit:
             return False
         if m.eltorito:
-            return len(m.eltorito['entries']) < 31
+            return len(m.eltorito['entries']) < 32
         cat = op.get('cat') or '/BOOT.CAT;1'
         if not _valid_new(m, 'iso', cat):
             return False
